@@ -15,7 +15,7 @@ def snapshot(o, s_env_rec=None):
     return dict(status=o["status"], reward=o.get("reward"), done=o.get("done"), traded=o.get("traded"),
                 log=[(k, None if t is None else us(t)) for k, t, c in o["log"]],
                 pos={k: v for k, v in o["pos"].items() if v != 0}, nlv=o.get("nlv"), nrec=o["nrec"],
-                now=None if o["now"] is None else us(o["now"]))
+                now=None if o["now"] is None else us(o["now"]), feature_obs=o.get("feature_obs"))
 
 
 def record_dump(env, upto):
